@@ -229,6 +229,9 @@ def gossip_family(w, pid, corrupt, corrupt_what, extra_kinds=(), mc=None, assump
                  ("bdgs", dict(traces=4, n=3, steps=250, sched="random", store="badger", cache=150))] + \
                 [("flt%d" % i, dict(traces=10, n=0, steps=260, sched="faults-mix")) for i in range(4)] + \
                 [("fltb", dict(traces=6, n=4, steps=260, sched="faults-mix", store="badger", cache=300))]
+    # the application's reply to a commit is lost (the call fails after the application
+    # processed the block): the node keeps the block unsigned and must go on as before
+    kinds += [("rl", dict(traces=6 if q else 18, n=0, steps=220 if q else 300, sched="rl-mix", txp=0.4))]
     kinds += list(extra_kinds)
     traces, sums = drive_all(w, gossip_specs(w, kinds))
     # recorded DAGs re-fed to bare hashgraph instances with transient store write
